@@ -88,6 +88,11 @@ namespace fastscapelib
     {
         if (m_paused)
         {
+            {
+                // a worker holds m_cv_m from before incrementing m_paused_count until it
+                // is waiting on m_cv: acquiring it here ensures that no wake-up is lost
+                std::lock_guard<std::mutex> lk(m_cv_m);
+            }
             m_cv.notify_all();
             m_paused = false;
             wait();
